@@ -182,15 +182,22 @@ def r3(ctx):
         match(tbl['TotalItemSize'][1], Call('Ord::max', ('field', ('variant', ('arg', 1, ANY), 'TotalItemSize'), 1), Call('ItemSize::size', ('arg', 2, ANY))))
     ctx.require(okb and okt, up, 'update-table', 'update(): count + 1 | (count + 1, max(max_length, item.size()))',
                 'update() is %s' % {k: [show_in(up, x) for x in v] for k, v in tbl.items()})
+    from analysis.reduce import reduce_of
+    from analysis.seq import ITEM
     fi = ctx.body('data::loading::BatchLimit::from_items')
-    tbl = {}
+    tbl, raw = {}, {}
     for v, blk in ret_values(fi):
         if v[0] == 'agg' and v[1] == 'adt':
             tbl[v[2].rsplit('::', 1)[-1]] = tuple(core(x) for x in v[3])
+            raw[v[2].rsplit('::', 1)[-1]] = v[3]
     okb = 'BatchSize' in tbl and match(tbl['BatchSize'][0], Call('len', ('arg', 1, ANY)))
-    okt = 'TotalItemSize' in tbl and match(tbl['TotalItemSize'][0], Call('len', ('arg', 1, ANY))) and \
-        has(tbl['TotalItemSize'][1], Call('Iterator::max', ANY))
-    ctx.require(okb and okt, fi, 'from-items-table', 'from_items(): len | (len, max size)', None)
+    okt = 'TotalItemSize' in tbl and match(tbl['TotalItemSize'][0], Call('len', ('arg', 1, ANY)))
+    red = reduce_of(ctx.facts, fi, raw['TotalItemSize'][1]) if okt else None
+    okt = okt and red is not None and red.op == 'max' and red.init is not None and match(core(red.init), Const(0)) and len(red.segs) == 1 and \
+        red.segs[0].kind == 'each' and not red.segs[0].conds and match(core(red.segs[0].src), ('arg', 1, ANY)) and \
+        match(core(red.segs[0].elem), Call('ItemSize::size', ITEM))
+    ctx.require(okb and okt, fi, 'from-items-table', 'from_items(): len | (len, max size of the items, 0 when empty)',
+                'from_items() is %s (max size: %r)' % ({k: [show_in(fi, x) for x in v] for k, v in tbl.items()}, red))
     # Batched::new clamps the limit to >= 1 and the prefetch factor to >= 1
     nw = ctx.body(B + '::new')
     rv = [v for v, blk in ret_values(nw)]
